@@ -575,3 +575,269 @@ def cases_for(prop, tier, seed):
     if prop == "C04":
         return CORPUS.get(prop, []) + prof_mixed(g, 400 * k, depth=3, neg=True, field_kw={"conv_p": 0.05}, block_ref_p=0.15, repeat_p=0.5)
     return _cases_for_base2(prop, tier, seed)
+
+
+# ------------------------------------------------------------------------------------ names and refs (C14)
+
+DISTINCT_POOL = ["alpha", "Beta", "gamma_ray", "DeltaForce", "eps", "Zeta9", "eta_1", "Theta", "iota", "Kappa_k",
+                 "lambda_x", "Mu", "nu2", "Xi", "omicron", "PiPi", "rho", "Sigma_s", "tau", "Upsilon"]
+
+
+def prof_names(g, n):
+    out = []
+    for i in range(n):
+        g.reset_names()
+        pool = list(DISTINCT_POOL)
+        g.r.shuffle(pool)
+        used_raw = set()
+
+        def name(collide_with=None):
+            if collide_with is not None:
+                # another spelling of the same normalised name
+                for grp in COLLIDING:
+                    if collide_with in grp:
+                        alts = [x for x in grp if x != collide_with and x not in used_raw]
+                        if alts:
+                            nme = g.pick(alts)
+                            used_raw.add(nme)
+                            return nme
+            if g.chance(0.3):
+                grp = g.pick(COLLIDING)
+                cand = [x for x in grp if x not in used_raw]
+                # only the first spelling of a group is handed out here (no accidental collision)
+                if cand and not any(x in used_raw for x in grp):
+                    nme = g.pick(cand)
+                    used_raw.add(nme)
+                    return nme
+            while pool:
+                nme = pool.pop()
+                if nme not in used_raw:
+                    used_raw.add(nme)
+                    return nme
+            nme = "Obj%d" % len(used_raw)
+            used_raw.add(nme)
+            return nme
+
+        addr = [0]
+
+        def next_addr():
+            addr[0] += 1
+            return addr[0]
+
+        def fields():
+            fs = []
+            pos = 0
+            fnames = g.r.sample(["en", "mode", "lvl", "my_val", "MyVal", "cnt", "flag_a", "FlagA"], g.r.randint(0, 3))
+            for fn in fnames:
+                fs.append({"name": fn, "base": "uint", "start": pos, "end": pos + 2})
+                pos += 2
+            return fs
+
+        def mk(kind, nm):
+            if kind == "register":
+                return {"kind": "register", "name": nm, "address": str(next_addr()), "size_bits": 8, "fields": fields()}
+            if kind == "command":
+                return {"kind": "command", "name": nm, "address": str(next_addr())}
+            if kind == "buffer":
+                return {"kind": "buffer", "name": nm, "address": str(next_addr())}
+            return {"kind": "block", "name": nm, "address_offset": str(next_addr() * 16), "objects": []}
+
+        objs = []
+        flat = []   # (container list, object)
+
+        def fill(container, depth):
+            for _ in range(g.r.randint(1, 4)):
+                kind = g.pick(["register", "register", "command", "buffer", "block" if depth < 2 else "register"])
+                o = mk(kind, name())
+                container.append(o)
+                flat.append((container, o))
+                if kind == "block":
+                    fill(o["objects"], depth + 1)
+        fill(objs, 0)
+        dev = "Dev"
+        defect = g.pick([None, None, None, "dup_object", "dup_field", "dup_enum", "dup_variant", "ref_missing", "ref_kind",
+                         "ref_buffer", "ref_ref", "ref_layout", "device_name", "good_ref", "good_ref", "good_ref_spelling"])
+        regs = [o for _, o in flat if o["kind"] == "register"]
+        cmds = [o for _, o in flat if o["kind"] == "command"]
+        blocks = [o for _, o in flat if o["kind"] == "block"]
+        containers = [objs] + [b["objects"] for b in blocks]
+        where = g.pick(containers)
+        pos = g.r.randint(0, len(where))
+        if defect == "dup_object" and flat:
+            _, victim = g.pick(flat)
+            alt = name(collide_with=victim["name"])
+            if alt.lower().replace("_", "") != victim["name"].lower().replace("_", ""):
+                # no alternative spelling available: rename both
+                victim["name"], alt = "my_reg", "MyReg"
+            where.insert(pos, mk(g.pick(["register", "command", "buffer"]), alt))
+        elif defect == "dup_field" and regs:
+            r = g.pick(regs)
+            r["fields"] = [{"name": "my_val", "base": "uint", "start": 0, "end": 2}, {"name": "MyVal", "base": "uint", "start": 2, "end": 4}]
+        elif defect == "dup_enum" and len(regs) >= 1:
+            r1 = g.pick(regs)
+            r2 = g.pick(regs)
+            e = lambda nm: {"enum": {"name": nm, "variants": [{"name": "A", "value": None}, {"name": "B", "value": "default"}]}, "try": False}
+            r1["fields"] = [{"name": "fa", "base": "uint", "start": 0, "end": 2, "conversion": e("my_enum")}]
+            if r2 is r1:
+                r1["fields"].append({"name": "fb", "base": "uint", "start": 2, "end": 4, "conversion": e("MyEnum")})
+            else:
+                r2["fields"] = [{"name": "fb", "base": "uint", "start": 2, "end": 4, "conversion": e("MyEnum")}]
+        elif defect == "dup_variant" and regs:
+            r = g.pick(regs)
+            r["fields"] = [{"name": "fa", "base": "uint", "start": 0, "end": 2, "conversion": {"enum": {"name": "En", "variants": [
+                {"name": "my_var", "value": None}, {"name": "MyVar", "value": None}, {"name": "Z", "value": "default"}]}, "try": False}}]
+        elif defect in ("good_ref", "good_ref_spelling", "ref_missing", "ref_kind", "ref_buffer", "ref_ref", "ref_layout"):
+            cand = regs + cmds + blocks
+            if cand:
+                t = g.pick(cand)
+                kind = t["kind"]
+                tname = t["name"]
+                ov = {"kind": kind}
+                if kind == "block":
+                    ov["address_offset"] = str(next_addr() * 16 + 400)
+                else:
+                    ov["address"] = str(next_addr() + 200)
+                if defect == "good_ref_spelling":
+                    for grp in COLLIDING:
+                        if tname in grp:
+                            tname = g.pick([x for x in grp if x != tname])
+                elif defect == "ref_missing":
+                    tname = "NoSuchThing"
+                elif defect == "ref_kind":
+                    ov["kind"] = g.pick([k for k in ("register", "command", "block") if k != kind])
+                    if ov["kind"] == "block":
+                        ov = {"kind": "block", "address_offset": "900"}
+                    else:
+                        ov = {"kind": ov["kind"], "address": "900"}
+                elif defect == "ref_buffer":
+                    bufs = [o for _, o in flat if o["kind"] == "buffer"]
+                    if bufs:
+                        tname = g.pick(bufs)["name"]
+                    ov = {"kind": "buffer"}
+                elif defect == "ref_ref":
+                    ov = {"kind": "ref"}
+                elif defect == "ref_layout":
+                    if kind == "block":
+                        ov["illegal"] = [g.pick(["objects", "cfg"])]
+                    elif kind == "register":
+                        ov["illegal"] = [g.pick(["byte_order", "bit_order", "size_bits", "allow_bit_overlap", "fields"])]
+                    else:
+                        ov["illegal"] = [g.pick(["byte_order", "bit_order", "size_bits_in", "size_bits_out", "allow_bit_overlap", "fields_in"])]
+                where.insert(pos, {"kind": "ref", "name": name(), "target": tname, "override": ov})
+        elif defect == "device_name":
+            dev = g.pick(["dev", "my_dev", "myDev", "MY_DEV", "Dev_x"])
+        cfg = {"register_address_type": "i32", "command_address_type": "i32", "buffer_address_type": "i32", "default_byte_order": "LE"}
+        syn = pick_syntax(g, (5, 4, 1, 1))
+        out.append(case({"config": cfg, "objects": objs}, syn, "names", device_name=dev, defect=defect))
+    return out
+
+
+_cases_for_base3 = cases_for
+
+
+def cases_for(prop, tier, seed):
+    thorough = tier == "thorough"
+    g = Gen(seed, stream=int(prop[1:]))
+    k = 10 if thorough else 1
+    if prop == "C14":
+        return CORPUS.get(prop, []) + prof_names(g, 1000 * k)
+    return _cases_for_base3(prop, tier, seed)
+
+
+# ------------------------------------------------------------------------------------ four syntaxes (C16), layout/types (C06), access (C17)
+
+def describe(g, o):
+    if g.chance(0.3):
+        o["description"] = g.pick(["A thing", "Control register", "x", "Second line\nof docs"]) if False else g.pick(["A thing", "Control register", "x"])
+
+
+def common_fragment_adef(g, rich=True):
+    """A whole device restricted to what all four syntaxes can express identically."""
+    g.reset_names()
+    objs, span = build_tree(g, depth=2, n_top=(1, 4), repeat_p=0.35, ref_p=0.25, cfg_p=0.2, block_p=0.3, neg=True,
+                            field_kw={"conv_p": 0.3, "cfg_p": 0.15, "access_p": 0.3}, block_ref_p=0.0)
+    def fix(o):
+        describe(g, o)
+        for key in ("fields", "fields_in", "fields_out"):
+            for f in o.get(key) or []:
+                if g.chance(0.2):
+                    f["description"] = g.pick(["field doc", "bits"])
+                cv = f.get("conversion")
+                if cv and "enum" in cv:
+                    # the DSL has no separate enum docs: the enum's description is the field's
+                    if "description" in f:
+                        cv["enum"]["description"] = f["description"]
+                    for v in cv["enum"]["variants"]:
+                        if g.chance(0.15):
+                            v["description"] = "variant doc"
+                if f["base"] != "bool" and "end" not in f:
+                    f["end"] = f["start"] + 1
+        if o["kind"] == "register" and g.chance(0.3):
+            n = (o["size_bits"] + 7) // 8
+            if g.chance(0.5) and o["size_bits"] <= 64:
+                # a value without bits above the size, in any order combination: low bits only when LSB0/LE-safe
+                o["reset"] = {"array": [0] * n} if o["size_bits"] % 8 else {"int": str(g.r.getrandbits(min(o["size_bits"], 63)))}
+                if o.get("bit_order") == "MSB0" or True:
+                    o["reset"] = {"array": [0] * n}
+            else:
+                o["reset"] = {"array": [0] * n}
+        if o["kind"] == "block":
+            for x in o["objects"]:
+                fix(x)
+        if o["kind"] == "ref" and o["override"]["kind"] == "register" and g.chance(0.3):
+            pass
+    for o in objs:
+        fix(o)
+    cfg = g.config(p=0.5, addr_types=("u16", "i16", "u32", "i32", "i64"), byte_order_p=0.85)
+    if g.chance(0.2):
+        cfg["defmt_feature"] = "defmt-03"
+    if g.chance(0.2):
+        cfg["name_word_boundaries"] = g.pick([["Underscore"], ["Underscore", "Hyphen", "LowerUpper"], ["Underscore", "LowerUpper", "UpperLower", "Acronym"]])
+    return {"config": cfg, "objects": objs}
+
+
+def prof_four_syntaxes(g, n):
+    out = []
+    for i in range(n):
+        adef = common_fragment_adef(g)
+        for syn in SYNTAXES:
+            out.append(case(copy.deepcopy(adef), syn, "four", group=i, want_mir=True, want_tokens=True))
+    return out
+
+
+def prof_defaults(g, n):
+    """Every global-config key toggled over small devices whose objects mostly do not set their own value."""
+    out = []
+    for i in range(n):
+        g.reset_names()
+        objs, _ = build_tree(g, depth=1, n_top=(2, 4), repeat_p=0.1, ref_p=0.2, block_p=0.2,
+                             field_kw={"conv_p": 0.1, "access_p": 0.25}, small_sizes=False)
+        cfg = g.config(p=0.7, addr_types=("u16", "i32"), byte_order_p=0.8)
+        adef = {"config": cfg, "objects": objs}
+        for syn in SYNTAXES:
+            out.append(case(copy.deepcopy(adef), syn, "four", group=10_000_000 + i, want_mir=True, want_tokens=True))
+    return out
+
+
+_cases_for_base4 = cases_for
+
+
+def cases_for(prop, tier, seed):
+    thorough = tier == "thorough"
+    g = Gen(seed, stream=int(prop[1:]))
+    k = 10 if thorough else 1
+    if prop == "C16":
+        return CORPUS.get(prop, []) + prof_four_syntaxes(g, 120 * k) + prof_defaults(g, 80 * k)
+    if prop == "C06":
+        cs = []
+        for i in range(400 * k):
+            cs.append(case(common_fragment_adef(g), pick_syntax(g, (3, 3, 2, 2)), "api"))
+        return CORPUS.get(prop, []) + cs + prof_layout(g, 100 * k)
+    if prop == "C17":
+        cs = []
+        for i in range(400 * k):
+            cs.append(case(common_fragment_adef(g), pick_syntax(g, (3, 3, 2, 2)), "api"))
+        return CORPUS.get(prop, []) + cs
+    if prop == "C03":
+        return CORPUS.get(prop, []) + prof_layout(g, 400 * k) + [case(common_fragment_adef(g), pick_syntax(g), "api") for _ in range(200 * k)]
+    return _cases_for_base4(prop, tier, seed)
